@@ -215,6 +215,47 @@ def check_splitlines(ctx, n):
                                                                                              "correspondence": "FV.Base.Lines.splitlines"}, found_input=False)
 
 
+def check_continuation(ctx, n):
+    """C13.Cont.joined against get_code_line + the join of the parse loop, on statements cut into pieces"""
+    from fortls.parsers.internal.parser import FortranFile
+    coq = ctx.coq("From FV Require Import Base.Str C13.Cont.")
+    r = ctx.rng
+    stmts = ["integer :: alpha, beta, gam", "call ext_sub(x, y, z + 1)", "x = y * (z + 1) - arr(2)", "if (x > 0 .and. y < 2) z = 3", "real(8), dimension(3) :: v_one, v_two",
+             "print *, x, y, z", "type(t_a), pointer :: p => null()"]
+    fillers = ["", "   ", "! a comment", "  ! & and more", "#ifdef X", "  #endif", "\t"]
+    exprs, meta = [], []
+    for _ in range(n):
+        stmt = r.choice(stmts)
+        cuts = sorted(r.sample(range(1, len(stmt)), r.choice([0, 1, 2, 3])))
+        bodies = [stmt[a:b] for a, b in zip([0] + cuts, cuts + [len(stmt)])]
+        if any(not b.strip() for b in bodies):
+            continue
+        pieces = []
+        for i, b in enumerate(bodies):
+            pieces.append({"lead": r.choice([0, 2, 5]), "amp": (i > 0 and r.random() < 0.5), "body": b, "filler": [r.choice(fillers) for _ in range(r.choice([0, 0, 1, 2]))]})
+        lines = []
+        for i, pc in enumerate(pieces):
+            lines.append(" " * pc["lead"] + ("&" if pc["amp"] else "") + pc["body"] + ("" if i == len(pieces) - 1 else " &"))
+            lines += pc["filler"]
+        lines.append("end")
+        f = FortranFile("/nonexistent/cont.f90")
+        f.set_contents(list(lines))
+        f.fixed = False         # the layout under test is free form (short unindented texts are otherwise taken for fixed form, see C14)
+        _, cur, post = f.get_code_line(0, backward=False)
+        got = "".join([cur] + post)
+        ctx.count(("cont", tuple(lines)), len(pieces) > 1)
+        if got.replace(" ", "") != stmt.replace(" ", ""):
+            ctx.report("C13:continuation", "a statement split over continuation lines is not reassembled",
+                       {"kind": "counterexample", "input": {"lines": lines, "statement": stmt}, "implementation": got})
+        exprs.append("str_eqb (joined %s %s) %s" % (cstr(lines[0]), clist(lines[1:], cstr), cstr(got)))
+        meta.append({"lines": lines, "implementation": got})
+    bad = coq.bools(exprs, shard=300)
+    ctx.cov["traces_validated_against_impl"] += len(exprs)
+    for b in bad[:3]:
+        ctx.report("C13:model-impl-mismatch", "get_code_line differs from C13.Cont.joined", {"kind": "broken-correspondence", "input": meta[b],
+                   "correspondence": "FV.C13.Cont.joined vs FortranFile.get_code_line(forward) + join"}, found_input=False)
+
+
 def known_mixed_quotes(ctx):
     """witness of C13_refuted_mixed_quotes on the implementation"""
     a = dump("program p\ncharacter(len=20) :: s\ns = \"it's\" // 'a!b'; integer :: zz\nend program p\n")
@@ -261,6 +302,7 @@ def run(ctx):
     q = ctx.quick()
     check_splitlines(ctx, 200 if q else 4000)
     known_mixed_quotes(ctx)
+    check_continuation(ctx, 300 if q else 6000)
     check_metamorphic(ctx, 40 if q else 800)
 
 
